@@ -560,3 +560,20 @@ Proof.
   rewrite Hns. destruct (h =? 0); [right; reflexivity|].
   destruct (h <=? zlen cm - 1); [right; reflexivity|left; reflexivity].
 Qed.
+
+(* ---------- a restart emits nothing and changes neither store ---------- *)
+Lemma restart_silent P gfh ops : in_domain ops ->
+  let s := reach P gfh ops in let s' := step P s ORestart in
+  events s' = events s /\ chain s' = chain s /\ fchain s' = fchain s /\ ftipVar s' = ftipVar s /\
+  op_events s s' = [] /\ (forall k, moment_state s s' k = s') /\
+  (forall h, notifs_since h s' = notifs_since h s).
+Proof.
+  intros Hd s s'. destruct (invariant P gfh ops Hd) as (_ & _ & Hft & _). fold s in Hft.
+  pose proof (core_restart P s Hft) as Hc. change (restart P s) with s' in Hc.
+  injection Hc as Hch Hfc Hftv Hev.
+  assert (Hoe : op_events s s' = []) by (unfold op_events; rewrite Hev; apply drop_all).
+  split; [exact Hev|]. split; [exact Hch|]. split; [exact Hfc|]. split; [exact Hftv|]. split; [exact Hoe|].
+  split.
+  - intros k. unfold moment_state. rewrite Hoe. reflexivity.
+  - intros h. unfold notifs_since. rewrite Hftv, Hch. reflexivity.
+Qed.
